@@ -118,7 +118,7 @@ OMask(o) ==
        (IF rdata[o] > 0 THEN {"IN"} ELSE {}) \cup (IF peer[o] # "open" THEN {"HUP"} ELSE {})
   ELSE IF k = "pipeW" THEN
        (IF ~wfull[o] THEN {"OUT"} ELSE {}) \cup (IF peer[o] # "open" THEN {"ERR"} ELSE {})
-  ELSE IF k = "pkt" THEN
+  ELSE IF k \in {"pkt", "mcp"} THEN
        (IF rdata[o] > 0 THEN {"IN"} ELSE {}) \cup {"OUT"}
   ELSE \* lst
        (IF rdata[o] > 0 THEN {"IN"} ELSE {})
@@ -154,7 +154,7 @@ TryWrite(o) ==
 
 Api(o, d) ==
   IF Kinds[o] = "lst" THEN "accept"
-  ELSE IF Kinds[o] = "pkt" THEN (IF d = "R" THEN "readfrom" ELSE "writeto")
+  ELSE IF Kinds[o] \in {"pkt", "mcp"} THEN (IF d = "R" THEN "readfrom" ELSE "writeto")
   ELSE IF d = "R" THEN "read" ELSE "write"
 
 Depth == Cardinality({k \in DOMAIN stack : stack[k].k = "cb"}) + 1
@@ -183,7 +183,9 @@ Start(d, o) ==
   /\ CanCmd /\ nop < MaxOps /\ (IF d = "R" THEN "read" ELSE "write") \in Cmds
   /\ (Class = "runpending" => stack = <<>>)   \* handlers start nothing new, so RunPending can terminate
   /\ ~oclosed[o]
-  /\ (d = "R" => Kinds[o] # "pipeW") /\ (d = "W" => Kinds[o] \in {"sock", "pipeW", "pkt"})
+  /\ (d = "R" => Kinds[o] # "pipeW") /\ (d = "W" => Kinds[o] \in {"sock", "pipeW", "pkt", "mcp"})
+  \* chain scenarios: only immediately completable operations (data buffered / room to write)
+  /\ (Class = "chain" => IF d = "R" THEN rdata[o] > 0 ELSE ~wfull[o])
   /\ (d = "R" => "R" \notin interest[o]) /\ (d = "W" => "W" \notin interest[o])
   \* one operation per direction at a time (the reactor record holds one)
   /\ \A k \in DOMAIN stack : ~(stack[k].k = "try" /\ stack[k].o = o /\ stack[k].d = d)
